@@ -649,3 +649,68 @@ def selftest():
                 print('selftest: generated literal/value mismatch', xs, repr(lit), val, got)
                 fails += 1
     return fails
+
+
+# --------------------------------------------------------------- reference printers
+
+def print_xs(xs, v):
+    """Canonical-ish XSD literal for a native value (reference encoder side)."""
+    if xs in INT_BOUNDS:
+        return str(int(v))
+    if xs == 'decimal':
+        return format(D(v), 'f')
+    if xs in ('double', 'float'):
+        if v != v:
+            return 'NaN'
+        if v in (float('inf'), float('-inf')):
+            return 'INF' if v > 0 else '-INF'
+        return repr(float(v))
+    if xs == 'boolean':
+        return 'true' if v else 'false'
+    if xs in ('string', 'anyURI'):
+        return v
+    if xs == 'dateTime':
+        s = '%04d-%02d-%02dT%02d:%02d:%02d' % (v.year, v.month, v.day, v.hour, v.minute, v.second)
+        if v.microsecond:
+            s += ('.%06d' % v.microsecond).rstrip('0')
+        if v.tzinfo is not None:
+            off = int(v.utcoffset().total_seconds() // 60)
+            s += 'Z' if off == 0 else fmt_offset(off)
+        return s
+    if xs == 'date':
+        return '%04d-%02d-%02d' % (v.year, v.month, v.day)
+    if xs == 'time':
+        s = '%02d:%02d:%02d' % (v.hour, v.minute, v.second)
+        if v.microsecond:
+            s += ('.%06d' % v.microsecond).rstrip('0')
+        return s
+    if xs == 'duration':
+        neg = v < datetime.timedelta(0)
+        a = -v if neg else v
+        s = 'P'
+        if a.days:
+            s += '%dD' % a.days
+        h, rem = divmod(a.seconds, 3600)
+        m, sec = divmod(rem, 60)
+        t = ''
+        if h:
+            t += '%dH' % h
+        if m:
+            t += '%dM' % m
+        if sec or a.microseconds:
+            t += '%d' % sec
+            if a.microseconds:
+                t += ('.%06d' % a.microseconds).rstrip('0')
+            t += 'S'
+        if t:
+            s += 'T' + t
+        if s == 'P':
+            s = 'PT0S'
+        return ('-' if neg else '') + s
+    if xs == 'base64Binary':
+        return base64.b64encode(tobytes(v)).decode('ascii')
+    if xs == 'hexBinary':
+        return binascii.hexlify(tobytes(v)).decode('ascii')
+    if xs == 'uuid':
+        return str(v)
+    raise KeyError(xs)
